@@ -231,6 +231,47 @@ class CondHarness(Harness):
         return ok
 
 
+class TileMetadata(Harness):
+    """validators are built from tile.timestamp / tile.size: whichever way the tile manager obtains a
+    cached tile for a tile service (bulk load, or the re-load of a tile that a concurrent request just
+    created), the tile carries the metadata of the stored tile"""
+    modules = ['mapproxy.grid', 'mapproxy.cache.tile']
+    functions = ['TileManager.load_tile_coord', 'TileManager._load_tile_coords']
+
+    @classmethod
+    def build(cls, L, cfg):
+        from props import common
+        return dict(t=L.mods['mapproxy.cache.tile'], G=common.make_grid(L.mods['mapproxy.grid'], 'merc_ll'))
+
+    @classmethod
+    def inputs(cls, ctx, cfg):
+        ts = real_var('ts')
+        assume(ts >= 1)
+        return dict(ts=ts, appears_late=bool_var('created_by_concurrent_request'))
+
+    @classmethod
+    def prop(cls, ctx, cfg, ts, appears_late):
+        from props import tmstub
+        t, G = ctx['t'], ctx['G']
+        c = (1, 1, 2)
+        late = bool(appears_late) if isinstance(appears_late, SymBool) else appears_late
+
+        class Cache(tmstub.RecCache):
+            def load_tiles(self, tiles, with_metadata=False, dimensions=None):
+                if late:
+                    # the tile is stored by another request right after this bulk load
+                    self.ev.append(('load_tiles-miss',))
+                    self.present[c] = True
+                    return False
+                return tmstub.RecCache.load_tiles(self, tiles, with_metadata, dimensions)
+        ev = []
+        cache = Cache(ev, {c: not late}, {c: ts})
+        src = tmstub.RecSource(ev)
+        mgr = t.TileManager(G, cache, [src], 'png', tmstub.RecLocker(ev))
+        tile = mgr.load_tile_coord(c, with_metadata=True)
+        return AND(tile.source is not None, tile.timestamp is not None, tile.timestamp == ts, tile.size == 1)
+
+
 CANARIES = [
     ('If-Modified-Since compared the wrong way round', {'mapproxy.response': [(
         "if timestamp is not None and self._timestamp <= timestamp:", "if timestamp is not None and self._timestamp >= timestamp:")]},
@@ -279,6 +320,11 @@ def obligations(tier, seed):
                 for max_age in ((3600, None) if tier == 'thorough' else (3600,)):
                     cfg = dict(service=svc, inm=inm, ims=ims, max_age=max_age)
                     specs.append(spec(MOD, 'CondHarness', 'conditional/%s/inm-%s/ims-%s/maxage-%s' % (svc, inm, ims, max_age), cfg=cfg))
+    specs.append(spec(MOD, 'TileMetadata', 'tile-metadata-for-validators', cfg={}))
+    specs.append(spec(MOD, 'TileMetadata', 'twin/TileMetadata', kind='witness', cfg={}))
+    specs.append(spec(MOD, 'TileMetadata', 'canary/concurrently created tile re-loaded without metadata', kind='canary', cfg={},
+                      patches={'mapproxy.cache.tile': [["                self.cache.load_tile(tile, with_metadata, dimensions=dimensions)",
+                                                        "                self.cache.load_tile(tile, dimensions=dimensions)"]]}))
     specs.append(dict(name='stub-contract/httpdate', module=MOD, func='selfcheck_httpdate', kind='holds', args={}, cost=1))
     specs.append(spec(MOD, 'CondHarness', 'twin/CondHarness', kind='witness', cfg=dict(service='wmts', inm='current', ims='date', max_age=3600)))
     for label, patches, c in (CANARIES if tier == 'thorough' else CANARIES[:4]):
